@@ -12,7 +12,7 @@ use sea_query::*;
 use serde_json::json;
 use std::sync::Arc;
 
-pub const SIGMA_TPL: &[char] = &['a', '1', '2', '?', '$', ' ', '\'', '"', '\\'];
+pub const SIGMA_TPL: &[char] = &['a', '1', '2', '?', '$', ' ', '\'', '"', '\\', 'é'];
 
 #[derive(Debug, PartialEq, Clone)]
 pub enum Piece {
